@@ -23,6 +23,13 @@ DIR_PIECES = ['YAML', 'TAG', 'FOO', ' ', '1', '.', '1.1', '1.2', '2.0', '!', '!!
               '%C3%A9', '99999999999999999999', '\n', '#c', 'a', '9' * 4301, '9' * 5000]
 TAG_PIECES = ['!', '<', '>', '%', '41', 'zz', 'C3', 'a', ' ', 'tag:', ',', '\n']
 LONG_DIGIT_DOCS = ['%YAML ' + '1' * 5000 + '.1\n---\n', '%YAML 1.' + '1' * 4301 + '\n---\n', '1' * 5000, '- ' + '1' * 4301 + ':30', '0x' + 'f' * 5000, '!!int ' + '7' * 5000, 'k: |' + '9' * 5000, '&' + '1' * 5000 + ' x', '--- >' + '1' * 4400]
+# characters that str.isdigit()/isalnum()/isspace() accept but the ASCII tests of the grammar do not
+UNI_CHARS = ['\u00b2', '\u00b3', '\u00b9', '\u2460', '\u0663', '\uff11', '\u2075', '\u00bd', '\u0660', '\U0001d7d8', '\u2003', '\u00a0', '\u3000', '\uff21', '\u0130', '\u212a', '\u017f']
+UNI_FRAMES = ['|%s\n a\n', '>%s\n a\n', '|-%s\n a\n', '>+%s\n a\n', 'k: |%s\n  a\n', '|1%s\n a\n', '%%YAML 1.%s\n---\n', '%%YAML %s.1\n---\n', '%%TAG !%s! tag:x,\n---\n', '&%s a\n', '*%s\n',
+              '!%s a\n', '!!%s a\n', '!<%s> a\n', '"\\x4%s"\n', '"\\u004%s"\n', '"\\%s"\n', '- %s\n', '%s: 1\n', '[%s]\n', '{%s: %s}\n', '%s', 'a%sb\n', '--- %s\n', '---%s\n', '...%s\n',
+              "'a%s'\n", 'a #%s\n', 'a\n%s- b\n', '? %s\n: %s\n', '-%s a\n', 'k:%sv\n']
+
+
 # implicit-resolver style regexes are run on every plain scalar: a long homogeneous run followed by a character that makes the
 # match fail is the classic trigger of exponential backtracking ("never hangs")
 BACKTRACK_UNITS = ['1', '0', '9', '1_', '_', '0x1', '0b1', '1:', ':1', '1.', '.1', '1e', 'e1', '+', '-', '2001-', '-01', '1 ', ' 1', 'a', 'y', 'n', 'o', 't', 'f', '~', '.', '<', '=', '0o',
@@ -141,6 +148,7 @@ def plan(tier, seed):
     jobs += [('tag', tl, i) for i in range(len(TAG_PIECES))]
     jobs += [('nest', i) for i in range(NFAM)]
     jobs += [('longdigits',)]
+    jobs += [('unidigits', k) for k in range(len(UNI_CHARS))]
     jobs += [('backtrack', k) for k in range(len(BACKTRACK_UNITS))]
     return jobs
 
@@ -244,6 +252,15 @@ def run_job(job, T):
             run_input(T, 'long-digit-runs', c, s_)
             run_input(T, 'long-digit-runs', {'input': s_, 'via': 7}, s_, via=7)
         T.sample('long-digit-runs', {'input': s_[:40] + '...'})
+    elif kind == 'unidigits':
+        ch = UNI_CHARS[job[1]]
+        for fr in UNI_FRAMES:
+            for rep in (ch, ch * 2, '1' + ch, ch + '1'):
+                doc = fr.replace('%s', rep).replace('%%', '%')
+                c = {'input': doc}
+                if T.trace: T.begin(c)
+                run_input(T, 'unicode-lookalikes', c, doc)
+        T.sample('unicode-lookalikes', {'input': doc})
     elif kind == 'backtrack':
         import signal, time
         u = BACKTRACK_UNITS[job[1]]
